@@ -6,6 +6,7 @@ _MODULES = [
     "c02_pipeline",
     "c05_wsgi_output",
     "c07_hostile",
+    "c08_containers",
     "c09_body_stream",
     "c10_limits",
     "c11_conditional",
